@@ -71,7 +71,8 @@ def cond(r, d=0):
     if k < 0.56:
         return f"not({cond(r, d+1)})"
     if k < 0.66:
-        return f"{r.choice(['and', 'or'])}({cond(r, d+1)}, {cond(r, d+1)})"
+        more = f", {cond(r, d+1)}" if r.random() < 0.3 else ""
+        return f"{r.choice(['and', 'or'])}({cond(r, d+1)}, {cond(r, d+1)}{more})"
     if k < 0.73:
         return f"{r.choice(['exists', 'empty'])}({hdr(r)})"
     if k < 0.79:
@@ -182,6 +183,10 @@ def match_part(r, profile="plain", max_components=5):
     if r.random() < 0.15:
         # a variable filled from a cell (possibly empty, blank or the word None) and then used as an existence test
         comps += [f"@e = {hdr(r)}", r.choice(["@e", "not(@e)", "@e -> push(\"es\", line_number())", "or(@e, no())"])]
+    if profile == "vars" and r.random() < 0.12:
+        # count(x) for a condition x keeps one counter per truth value; the counters are read back by key
+        comps += r.choice([[f"count.cr({hdr(r)} == {sterm(r)})", "@crf = @cr.False", "@crt = @cr.True"],
+                           [f"count.cn({nhdr(r)} == {nterm(r)})", 'push("cf", @cn.False)']])
     # a `last() ->` component, if any, comes last (quantifier of C01)
     comps.sort(key=lambda c: c.startswith("last() ->"))
     return r.choice([" ", "\n", "  "]).join(comps)
